@@ -266,3 +266,76 @@ def pat_bindings(p):
     if k in ("ref", "typed"):
         return pat_bindings(p["pat"])
     return []
+
+
+# ------------------------------------------------------------------ Tera AST helpers
+
+def tera_expr_idents(e):
+    """identifier paths mentioned by a Tera expression (value, filters' arguments)"""
+    out = []
+
+    def val(v):
+        k = v.get("k")
+        if k == "ident":
+            out.append(v["v"])
+        elif k in ("math", "logic"):
+            ex(v["l"])
+            ex(v["r"])
+        elif k == "test":
+            out.append(v["ident"])
+            for a in v["args"]:
+                ex(a)
+        elif k == "array":
+            for a in v["elems"]:
+                ex(a)
+        elif k == "concat":
+            for a in v["values"]:
+                val(a)
+        elif k == "in":
+            ex(v["l"])
+            ex(v["r"])
+        elif k == "fncall":
+            for _, a in v["call"]["args"]:
+                ex(a)
+
+    def ex(e):
+        val(e["val"])
+        for f in e.get("filters", []):
+            for _, a in f["args"]:
+                ex(a)
+    ex(e)
+    return out
+
+
+def tera_walk(nodes):
+    """yield every node (pre-order) of a Tera AST"""
+    for n in nodes:
+        yield n
+        k = n.get("k")
+        if k == "for":
+            yield from tera_walk(n["body"])
+            if n.get("empty"):
+                yield from tera_walk(n["empty"])
+        elif k == "if":
+            for c in n["conds"]:
+                yield from tera_walk(c["body"])
+            if n.get("else"):
+                yield from tera_walk(n["else"])
+        elif k in ("block", "macrodef", "filtersection"):
+            yield from tera_walk(n["body"])
+
+
+def tera_all_idents(nodes):
+    out = []
+    for n in tera_walk(nodes):
+        k = n.get("k")
+        if k == "var":
+            out.extend(tera_expr_idents(n["e"]))
+        elif k == "set":
+            out.extend(tera_expr_idents(n["value"]))
+        elif k == "for":
+            out.extend(tera_expr_idents(n["container"]))
+        elif k == "if":
+            for c in n["conds"]:
+                out.extend(tera_expr_idents(c["cond"]))
+    return out
